@@ -16,8 +16,8 @@ const (
 
 var (
 	NodeKeyPrefix              = []byte{0x10}
-	ActiveNodeKeyPrefix        = append(NodeKeyPrefix, 0x01)
-	InactiveNodeKeyPrefix      = append(NodeKeyPrefix, 0x02)
+	ActiveNodeKeyPrefix        = []byte{0x10, 0x01}
+	InactiveNodeKeyPrefix      = []byte{0x10, 0x02}
 	NodeForInactiveAtKeyPrefix = []byte{0x11}
 	NodeForPlanKeyPrefix       = []byte{0x12}
 )
